@@ -6,7 +6,9 @@ the sources and write `lean/MidnightZK/Gen/C17Consts.lean`:
   length of `VerifyingKey::from_parts`, the header constant of `bytes_length`;
 * `curves/src/bls12_381/fq.rs`: MODULUS, S, ROOT_OF_UNITY, ROOT_OF_UNITY_INV, TWO_INV, DELTA, R
   (Montgomery limbs as written in the source);
-* `curves/src/bls12_381/g1.rs` / `g2.rs`: compressed sizes.
+* `curves/src/bls12_381/g1.rs` / `g2.rs`: compressed sizes;
+* `zk_stdlib/src/lib.rs`: `ZKSTD_VERSION`, the field order of `ZkStdLibArch` (= its bincode
+  layout), the field order of `MidnightVK::write`; `NB_ARITH_COLS` of the native chip.
 
 Python 3 stdlib only. Exits non-zero if a source no longer parses."""
 import os
@@ -39,6 +41,32 @@ def main():
     fq = open(os.path.join(REPO, "curves/src/bls12_381/fq.rs")).read()
     g1 = open(os.path.join(REPO, "curves/src/bls12_381/g1.rs")).read()
     g2 = open(os.path.join(REPO, "curves/src/bls12_381/g2.rs")).read()
+    std = open(os.path.join(REPO, "zk_stdlib/src/lib.rs")).read()
+    nat = open(os.path.join(REPO, "circuits/src/field/native/native_chip.rs")).read()
+
+    m = re.search(r"const ZKSTD_VERSION: u32 = (\d+);", std)
+    if not m:
+        die("cannot find ZKSTD_VERSION")
+    zkstd_version = int(m.group(1))
+    m = re.search(r"pub struct ZkStdLibArch \{(.*?)\n\}", std, re.S)
+    if not m:
+        die("cannot find ZkStdLibArch")
+    arch_fields = re.findall(r"pub (\w+): (\w+),", m.group(1))
+    if not arch_fields or any(t not in ("bool", "u8") for _, t in arch_fields):
+        die("ZkStdLibArch has a field that is neither bool nor u8")
+    m = re.search(r"pub const NB_ARITH_COLS: usize = (\d+);", nat)
+    if not m:
+        die("cannot find NB_ARITH_COLS")
+    nb_arith = int(m.group(1))
+    # MidnightVK::write order: architecture, max_bit_len, nb_public_inputs (u32 LE), vk
+    w = re.search(r"impl MidnightVK \{.*?pub fn write<W: io::Write>\(&self, writer: &mut W, format: SerdeFormat\) -> io::Result<\(\)> \{(.*?)\n    \}", std, re.S)
+    if not w:
+        die("cannot find MidnightVK::write")
+    body = w.group(1)
+    order = [body.find("self.architecture.write(writer)"), body.find("&[self.max_bit_len]"),
+             body.find("(self.nb_public_inputs as u32).to_le_bytes()"), body.find("self.vk.write(writer, format)")]
+    if -1 in order or order != sorted(order):
+        die("MidnightVK::write no longer writes architecture, max_bit_len, nb_public_inputs (LE u32), vk in this order")
 
     m = re.search(r"const VERSION: u8 = (0x[0-9a-fA-F]+|\d+);", mod)
     if not m:
@@ -108,6 +136,12 @@ def main():
     for name, mv in mont.items():
         out.append(f"/-- Montgomery limbs of `{name}` as written in the source. -/")
         out.append(f"def {name}Mont : Nat := 0x{mv:x}")
+    out.append("/-- `zk_stdlib/src/lib.rs: ZKSTD_VERSION` -/")
+    out.append(f"def zkstdVersion : Nat := {zkstd_version}")
+    out.append("/-- Fields of `ZkStdLibArch` in declaration (= bincode) order, with `true` for `bool`, `false` for `u8`. -/")
+    out.append("def archFields : List (String × Bool) := [" + ", ".join(f'("{n}", {"true" if t == "bool" else "false"})' for n, t in arch_fields) + "]")
+    out.append("/-- `circuits/src/field/native/native_chip.rs: NB_ARITH_COLS` -/")
+    out.append(f"def nbArithCols : Nat := {nb_arith}")
     out.append("/-- Compressed sizes of G1 / G2 elements. -/")
     out.append(f"def g1Compressed : Nat := {g1c}")
     out.append(f"def g2Compressed : Nat := {g2c}")
